@@ -101,6 +101,12 @@ def base_pair(rng, base):
     else:
         ld, rd = (-2, 2), ((-2, 2) if base % 2 else None)
     lm = gen.mask(rng, H, W, "sparse") if base % 6 in (1, 3) else None
+    if nb > 1 and base >= 6:
+        # a multiband image with one empty band (entirely NaN) is "not entirely NaN": well-formed; the empty band is the first one
+        # on one image and the last one on the other
+        l = l.copy(); r = r.copy()
+        l[0] = np.nan
+        r[-1] = np.nan
     left = gen.make_dataset(l, ld, lm)
     right = gen.make_dataset(r, rd, None)
     if nb > 1 and base >= 6:
